@@ -637,6 +637,20 @@ class FileSystemSink(DataSink):
 
         file_path = os.path.join(obj_dir, filename + ".json")
 
+        # (the source tells an id with versions from one without by how it is
+        # stored: an id cannot be both -- the memory store refuses this, too)
+        if "modified" in stix_obj:
+            if os.path.isfile(os.path.join(type_dir, stix_obj["id"] + ".json")):
+                raise ValueError(
+                    "Can't add a version of %s: it is stored as an object "
+                    "without versions" % stix_obj["id"],
+                )
+        elif os.path.isdir(os.path.join(type_dir, stix_obj["id"])):
+            raise ValueError(
+                "Can't add %s without 'modified': versions of it are "
+                "stored" % stix_obj["id"],
+            )
+
         if self.bundlify:
             if 'spec_version' in stix_obj:
                 # Assuming future specs will allow multiple SDO/SROs
@@ -693,6 +707,14 @@ class FileSystemSink(DataSink):
             write = self._prepare_write(stix_obj, encoding=self.encoding, pretty=pretty)
             if any(write[1] == other[1] for other in writes):
                 raise DataSourceError("Attempted to overwrite file (!) at: {}".format(write[1]))
+            if any(
+                write[1] == other[0] + ".json" or other[1] == write[0] + ".json"
+                for other in writes
+            ):
+                # (one id with and without 'modified' in the same lot)
+                raise ValueError(
+                    "Can't add %s both with and without 'modified'" % stix_obj["id"],
+                )
             writes.append(write)
 
         for obj_dir, file_path, data in writes:
